@@ -780,3 +780,23 @@ Proof.
   - intros rest Hr. rewrite Ev. unfold entry_at. rewrite Mg; [reflexivity|]. apply atbelow_suffix. now exists rest.
   - intros k H1 H2. rewrite Ev. apply entry_at_moved; auto.
 Qed.
+
+(* the facts the precondition of a real Rename provides *)
+Lemma rename_pre_facts s p q f : WF s -> wf_op s (Rename p q) = true ->
+  lookup s (normalize_path p) = Some f -> normalize_path p <> normalize_path q ->
+  let old := normalize_path p in let new := normalize_path q in
+  canon old /\ canon new /\ old <> s_slash /\ new <> s_slash /\ below old new = false /\ below new old = false /\
+  (forall k r, lookup s k = Some r -> below new k = false).
+Proof.
+  intros W Hwf Hl Eon old new. cbn [wf_op] in Hwf. apply andb_true_iff in Hwf as [Hn Hwf]. apply andb_true_iff in Hn as [Hn Hroot].
+  apply andb_true_iff in Hn as [Hnp Hnq]. fold old new in Hl, Eon, Hwf, Hroot.
+  assert (Ho : canon old) by now apply canon_normalize. assert (Hnc : canon new) by now apply canon_normalize.
+  apply negb_true_iff, beqb_neq in Hroot.
+  assert (Eon' : beqb old new = false) by now apply beqb_neq.
+  destruct (GWF_lookup_node _ _ _ _ _ _ W Hl) as (fn & Hfn).
+  assert (Hko : kind_at s old = Some (ndir fn)) by (unfold kind_at; now rewrite Hl, Hfn).
+  rewrite Hko, Eon' in Hwf. cbn [orb] in Hwf. apply andb_true_iff in Hwf as [Hb1 Hpre]. apply negb_true_iff in Hb1.
+  destruct (rename_pre s old new f W Ho Hnc Hl Eon) as (Hnr & Hb2 & Hfree & Hpnew).
+  { rewrite Hko. exact Hpre. }
+  split; [exact Ho|]. split; [exact Hnc|]. repeat split; auto.
+Qed.
